@@ -42,7 +42,7 @@ FIELD_POOL = ['Ok', 'Fail', 'Error', 'Yes', 'No', 'f0', 'A', 'b', 'Busy']
 FEATURES = ['deep_ns', 'global_enc', 'shared_itf', 'empty_itf', 'no_ports', 'inout_mix',
             'out_many_formals', 'nested_enum', 'outer_enum', 'injected', 'same_name_siblings',
             'multi_id_ns', 'reopened_ns', 'system_enc', 'partial_spelling', 'distractors',
-            'many_ports', 'subint_reply', 'bool_reply', 'mc_ready', 'ref_extern', 'prefix_ports', 'mirror_ns', 'many_provides', 'prefix_ns', 'many_requires']
+            'many_ports', 'subint_reply', 'bool_reply', 'mc_ready', 'ref_extern', 'prefix_ports', 'mirror_ns', 'many_provides', 'prefix_ns', 'many_requires', 'shadow_ns']
 
 
 def _uniq(draw, pool, taken, n=1):
@@ -80,7 +80,16 @@ def shell_model(draw, force=None, max_ports=6, collide=False):  # pylint: disabl
         # (Core / CoreUnit): only id-aligned prefixes enclose a scope
         prefix_sibling = enc_scope[:-1] + (enc_scope[-1],)
         enc_scope = enc_scope[:-1] + (enc_scope[-1] + 'Unit',)
+    shadow_root = None
+    if 'shadow_ns' in feats:
+        # a root-level namespace named like the encapsulee's innermost namespace: P::A vs ::A - every
+        # qualified name in the generated code has to be rooted (::A::I), a relative A::I would find P::A
+        if len(enc_scope) < 2:
+            enc_scope = ('Outer',) + (enc_scope or ('Inner',))
+        shadow_root = (enc_scope[-1],)
     scopes = [enc_scope[:k] for k in range(len(enc_scope) + 1)]
+    if shadow_root:
+        scopes.append(shadow_root)
     if prefix_sibling:
         scopes.append(prefix_sibling)
     if 'same_name_siblings' in feats or draw(st.booleans()):
@@ -114,6 +123,8 @@ def shell_model(draw, force=None, max_ports=6, collide=False):  # pylint: disabl
     externs = []
     for i in range(draw(st.integers(1, 3))):
         sc = draw(st.sampled_from(scopes))
+        if shadow_root and i == 0:
+            sc = shadow_root
         nm = _uniq(draw, pool_for(['Info', 'Msg', 'T', 'Data', 'Value_t', 'Result']), names_in[sc])
         e = {'k': 'extern', 'name': [nm], 'value': f'::xt::T{i}'}
         if 'ref_extern' in feats and i in (0, 1):
@@ -155,6 +166,8 @@ def shell_model(draw, force=None, max_ports=6, collide=False):  # pylint: disabl
         sc = draw(st.sampled_from(scopes))
         if prefix_sibling and i == 0:
             sc = enc_scope  # the declaration that gets a namesake in the prefix-named sibling
+        if shadow_root and i == 0:
+            sc = shadow_root  # ::A::I referenced from P::A
         nm = _uniq(draw, pool_for(TYPE_POOL), names_in[sc])
         itf = {'k': 'interface', 'name': [nm], 'types': [], 'events': []}
         if ('nested_enum' in feats and i == 0) or 'mc_ready' in feats or \
